@@ -8,6 +8,7 @@ import Torf.Lemmas.Span
 import Torf.Lemmas.Magnet
 import Torf.Lemmas.Base32
 import Torf.Lemmas.Dump
+import Torf.Lemmas.BencodeSmallMono
 import Torf.Model.ReadStream
 namespace Torf.C06
 open Torf Torf.Bencode Torf.Codec Torf.ReadStream
@@ -67,14 +68,11 @@ theorem C06_info_canonical (env : Env) (md : List (PyVal × PyVal)) (ib : Bytes)
     · exact absurd h (by simp)
 
 /-- Every conforming parser computes the same value from canonical bytes: the canonical value
-    with a given serialisation is unique. -/
-theorem C06_conforming_unique (lim : Nat) (bs : Bytes) (v w : BVal)
-    (hv : canon v = true) (hw : canon w = true) (sv : small lim v = true) (sw : small lim w = true)
-    (h1 : ser v = bs) (h2 : ser w = bs) : v = w := by
-  have p1 := parse_ser lim v hv sv
-  have p2 := parse_ser lim w hw sw
-  rw [h1] at p1; rw [h2] at p2
-  exact Option.some.inj (p1.symm.trans p2)
+    with a given serialisation is unique (no digit limit involved). -/
+theorem C06_conforming_unique (bs : Bytes) (v w : BVal)
+    (hv : canon v = true) (hw : canon w = true)
+    (h1 : ser v = bs) (h2 : ser w = bs) : v = w :=
+  ser_inj_canon v w hv hw (h1.trans h2.symm)
 
 /-- `infohash` is the lower-case hex of `H` applied to exactly the info bytes. -/
 theorem C06_infohash_def (env : Env) (H : Bytes → Bytes) (md : List (PyVal × PyVal)) (h : Bytes)
